@@ -10,6 +10,7 @@ from __future__ import annotations
 import numpy as np
 
 import common
+from gen import translate_small
 from common import g_bool, g_float, g_list, g_nat
 from drivers import dense, tracing
 
@@ -53,6 +54,11 @@ def gen_cases(ctx, n):
         noise = True if order == 2 else bool(ctx.rng.random() < 0.9)
         cases.append(dict(order=order, T=T, dt=dt, k=k, idx=idx, jts=jts if noise else [], sampling=sampling, noise=noise))
     return cases
+
+
+def regenerate(ctx):
+    """coq/Gen/SmallGen.v from the current source of check_if_identity / AnalogSimParams.times / the scheduled-jump tests (fail closed)"""
+    translate_small.regenerate()
 
 
 def correspond(ctx):
